@@ -238,6 +238,30 @@ def check_theorems(pid):
     return res
 
 
+COQCHK_SKIP = {"C05", "C06"}   # import Flocq + the grid evaluations: coqchk re-checks vm casts with the slow machine (hours); run out of band
+
+
+def coqchk(pid, timeout=3000):
+    """Independent re-check of the compiled property module and everything it depends on (thorough tier).
+    Returns the list of axioms coqchk reports for the whole context ([] = none)."""
+    r = subprocess.run(["flock", "-s", os.path.join(WORKROOT, "make.lock"), "coqchk", "-silent", "-o", "-Q", "theories", "HIDI",
+                        "HIDI.Properties.%s" % pid], cwd=COQ, capture_output=True, text=True, timeout=timeout)
+    out = r.stdout + r.stderr
+    if r.returncode != 0:
+        raise CheckError("coqchk rejects Properties/%s.vo:\n%s" % (pid, out[-2000:]))
+    m = re.search(r"\* Axioms:(.*?)\n\s*\n\* ", out, re.S)
+    if not m:
+        raise CheckError("cannot read coqchk's context summary:\n" + out[-1500:])
+    body = m.group(1).strip()
+    for bad in ("type-in-type", "unsafe (co)fixpoints", "positivity is assumed"):
+        mm = re.search(re.escape(bad) + r":\s*(\S+)", out)
+        if mm and mm.group(1) != "<none>":
+            raise CheckError("coqchk: development relies on %s" % bad)
+    if body == "<none>":
+        return []
+    return [l.strip() for l in body.split("\n") if l.strip()]
+
+
 # ---- parsing Coq terms printed by vm_compute (lists, tuples, numbers, constructors)
 
 _tok = re.compile(r"\s*(\[|\]|\(|\)|;|,|-?\d+|[A-Za-z_][A-Za-z0-9_.']*|%[A-Za-z_]+|\"(?:[^\"]|\"\")*\")")
@@ -363,6 +387,14 @@ class Run:
             raise CheckError("forbidden constructs in the Coq development: %s" % bad[:5])
         ensure_coq_built()
         self.thm_axioms = check_theorems(self.pid)
+        if self.tier == "thorough" and self.pid not in COQCHK_SKIP:
+            ax = coqchk(self.pid)
+            allowed = {a for v in self.thm_axioms.values() for a in v}
+            extra = [a for a in ax if a.split()[0] not in allowed]
+            self.coverage["coqchk"] = {"cmd": "coqchk -silent -o -Q theories HIDI HIDI.Properties.%s" % self.pid,
+                                       "axioms_in_context": ax or "none"}
+            if extra:
+                raise CheckError("coqchk reports axioms that Print Assumptions did not: %s" % extra)
         return self.thm_axioms
 
     def violation(self, what, replay, no_input=False, signature=None):
